@@ -161,6 +161,14 @@ class LocIndexer(Indexer):
             iindexer = slice(iindexer.start, iindexer.stop, -iindexer.step)
         else:
             obj = self.obj
+            if (
+                iindexer.start is not None
+                and iindexer.stop is not None
+                and coerce_loc_index(obj, iindexer.start)
+                > coerce_loc_index(obj, iindexer.stop)
+            ):
+                # A reversed label slice of a sorted index selects nothing
+                return new_collection(LocEmpty(obj._meta, cindexer))
         assert iindexer.step in (None, 1)
         return new_collection(LocSlice(obj, iindexer, cindexer))
 
